@@ -70,7 +70,7 @@ def cases(tier, seed):
     for i in range(0, len(pc), 8):
         cs.append({'f': 'partial', 'chunks': pc[i:i + 8], 'seed': seed + i})
     for fmt in ('old0', 'old1', 'old2', 'new'):
-        for tag in (13, 11, 2, 8, 61):
+        for tag in (13, 11, 2, 8, 61, 17):
             cs.append({'f': 'growth', 'fmt': fmt, 'tag': tag})
     # the two-octet octet counts in front of the subpacket areas of signatures PGPy builds, with subpackets on either side of each length-form boundary
     ns = [20, 150, 189, 190, 191, 192, 193, 194, 255, 256, 257, 1000, 8381, 8382, 8383, 8384, 8385, 8386, 20000, 60000]
@@ -463,6 +463,18 @@ def _areas(ctx, d):
                     ctx.fail('subpacket-area-count-wrong', dict(where, err='reload: ' + repr(e)[:140]))
 
 
+def _photo(octets):
+    """reference decode of one user-attribute packet holding one image subpacket -> (image header, image) or None"""
+    try:
+        q = wire.split(bytes(octets))
+        sps = wire.subpackets(q[0].body)
+    except wire.Malformed:
+        return None
+    if len(q) != 1 or len(sps) != 1 or sps[0][0] != 1:
+        return None
+    return bytes(sps[0][2][:16]), bytes(sps[0][2][16:])
+
+
 def _growth(ctx, d):
     """parse a packet, change its body length across every width boundary through the public attributes, update_hlen,
     and let the reference re-decode what is written"""
@@ -500,13 +512,37 @@ def _growth(ctx, d):
                     p.packets[0]._contents = bytearray(b'e' * n)
                     p.packets[0].update_hlen()
                 expect = lambda n: b'\x00' + wire.new_hdr(11, 6 + n) + b'b\x00\x00\x00\x00\x00' + b'e' * n
+            elif tag == 17:
+                # a photo: one image subpacket (type 1, version-1 header of 16 octets); the body is replaced through the public attribute
+                ih = b'\x10\x00\x01\x01' + bytes(12)
+                body0 = wire.sp_len_enc(1 + 16 + start) + b'\x01' + ih + b'\xff\xd8' + b'i' * (start - 2)
+
+                def mk(p, n):
+                    p.image.image = bytearray(b'\xff\xd8' + b'j' * n)
+                    p.image.update_hlen()
+                expect = lambda n: wire.sp_len_enc(1 + 16 + 2 + n) + b'\x01' + ih + b'\xff\xd8' + b'j' * n
             elif tag == 2:
                 continue
             h = hdr(len(body0))
             if h is None:
                 continue
             try:
-                p = Packet(bytearray(h + body0))
+                if tag == 17:
+                    # built, not received: a received attribute subpacket is re-emitted as it was on the wire whatever is assigned later
+                    # (the repair for C05/C08), so the editable photo is the one PGPUID.new makes; it is measured once before the edit
+                    if fmt != 'new':
+                        continue
+                    import pgpy
+                    p = pgpy.PGPUID.new(bytearray(b'\xff\xd8' + b'i' * (start - 2)))._uid
+                    enc = ((_photo(bytes(p.__bytearray__())) or (b'',))[0][3:4]) or b'\x00'   # the format octet PGPy chose (0 = not recognised)
+                    ih = b'\x10\x00\x01' + enc + bytes(12)
+                    body0 = wire.sp_len_enc(1 + 16 + start) + b'\x01' + ih + b'\xff\xd8' + b'i' * (start - 2)
+                    expect = lambda n, ih=ih: wire.sp_len_enc(1 + 16 + 2 + n) + b'\x01' + ih + b'\xff\xd8' + b'j' * n
+                    if _photo(bytes(p.__bytearray__())) != (ih, b'\xff\xd8' + b'i' * (start - 2)):
+                        ctx.fail('length-field-after-growth', {'fmt': fmt, 'tag': tag, 'start': len(body0), 'target': 'as built', 'header_written': hx(bytes(p.__bytearray__())[:6])})
+                        continue
+                else:
+                    p = Packet(bytearray(h + body0))
             except Exception:
                 # header form cannot carry this start length (e.g. one-octet old length and 300 octets)
                 continue
@@ -523,6 +559,9 @@ def _growth(ctx, d):
             try:
                 q = wire.split(out + b'\xb4\x01Z')
                 good = len(q) == 2 and q[0].body == exp and q[0].tag == tag and q[1].body == b'Z'
+                if tag == 17:
+                    # the subpacket length may use any legal form (PGPy writes five octets from 8 384 on); what it frames must be the new photo
+                    good = len(q) == 2 and q[0].tag == 17 and q[1].body == b'Z' and _photo(out) == (ih, b'\xff\xd8' + b'j' * target)
             except wire.Malformed:
                 good = False
             if not good:
